@@ -54,6 +54,11 @@ CLAIMED.update({
          "Every single cut and every pair of cuts of eight short streams (valid, and with each kind of undecodable message), plus thousands (quick) to hundreds of thousands (thorough) of generated streams (messages up to ~65 KiB, an invalid message at any position, an incomplete tail) with dribbled, boundary-aligned, peek-window and random segmentations: the handler must deliver exactly the messages before the first undecodable one, each equal to the reference parse of its own bytes, close the connection, and leave a second connection unaffected.",
          "trusted: harness/refipfix; verif hook VerifHandleTCPClient; an in-memory net.Conn returning exactly the generated segments stands for the socket", "DESIGN.md section 3 C11"),
 })
+CLAIMED.update({
+ "C20": ("model-based property testing: rapid-generated histories of arrivals, bursts past the cap, queries and resets driven in-package (go -overlay) with httptest, against a slice model; rendering oracle per field",
+         "A fixed history that passes the 4096 cap three times with queries at the boundaries, one arrival per data type, and hundreds (quick) to thousands (thorough) of generated histories: the store never exceeds the cap and equals the last arrivals in order, GET /records returns the last min(n, stored) entries in both formats, invalid count/format give 400, wrong methods 405, reset empties, and every field of every record appears by name and canonical value text in the rendered entry. Sampled.",
+         "trusted: go -overlay compiles the unmodified collector.go next to the driver; canonical value texts as listed in the evidence", "DESIGN.md section 3 C20"),
+})
 HOOK_COMMITS = ["bde829d", "7b897fc", "836c091"]
 
 checks = []
